@@ -328,7 +328,7 @@ Inductive case :=
    is never a correct answer): [tos] the offsets, [froms] line, character pairs. *)
 | CText (s : bytes) (l0 : Z) (nl : nat) (c0 : Z) (nc : nat) (tos : bytes) (froms : bytes)
 (* a single lspPositionToIdx observation (used for the positions the grid's
-   oracle leaves to the recorded finding class) *)
+   oracle leaves to the class to-idx-line-start-after-crlf) *)
 | CToIdx (s : bytes) (p : pos) (obs : Z)
 (* lspRangeFromRange on one range *)
 | CRange (s : bytes) (r : Z * Z) (obs : lrange)
